@@ -50,6 +50,7 @@ inline Profile profile_for(int prop, unsigned caps)
         add(K_CLEAR, 1 * scale);
         add(K_RESERVE, 4 * scale);
         add(K_NEW, 2 * scale);
+        add(K_DEFAULT, 1);  // a default-constructed vector (no block, no address table) is a start state for every property
     };
     auto copies = [&](unsigned scale)
     {
